@@ -20,6 +20,16 @@ two such points is atomic because it touches only goroutine-local data.
 * `Variant` selects the code before/after the proposed "fix:" commits
   (`requeue`: C01-requeue-failed-flush, `atomicTarget`: C05-empty-flush-target,
   `monotone`: C05-monotone-update-offsets).  `fixed` is the main model, `old` the pre-fix one.
+* `BuildSegment` (called by `prepareFlush` AFTER `Drain`) is a step that may fail: `buildOk` are its
+  error returns as they are in the source (`strictBuild = false`: empty batch list, empty payload) or
+  with the extra validation "record count < 0" of a hardening change (`strictBuild = true`);
+  `requeueBuild` says what the error exit of `prepareFlush` does with the drained batches (the
+  source: nothing — they are dropped; `true`: `Requeue`, like the upload-failure path).  In
+  `requeueBuild` shapes a fault oracle (`State.fault`, toggled by the environment event
+  `buildFault`) can make ANY `BuildSegment` call fail.  A batch carries the two header facts these
+  rules look at: `mc` = the record count the client declared (bytes 57..61, int32, never validated
+  by `AppendBatch`) and `len` = the payload length (`AppendBatch` accepts only `len ≥ 8`:
+  `PatchRecordBatchBaseOffset` writes bytes 0..8; the produce path only `len ≥ 61`).
 -/
 namespace KafVerif.StorageLog
 
@@ -27,6 +37,8 @@ structure Batch where
   id : Nat
   base : Nat
   n : Nat
+  mc : Int      -- header record count as declared by the client (`RecordBatch.MessageCount`)
+  len : Nat     -- `len(batch.Bytes)`
 deriving DecidableEq, Repr, Inhabited
 
 /-- one past the last offset of the batch (`BaseOffset + LastOffsetDelta + 1`) -/
@@ -50,11 +62,13 @@ structure Cfg where
   maxMessages : Nat
 deriving Repr, DecidableEq
 
-/-- `WriteBuffer.ShouldFlush` (sizeBytes == 0 ⇔ no batches: every batch has ≥ 61 bytes). -/
+/-- `WriteBuffer.ShouldFlush` (sizeBytes == 0 ⇔ no batches: every batch has ≥ 8 bytes).
+`messageCount` is the running sum of the DECLARED record counts (`int(batch.MessageCount)`, reset by
+`Drain`, re-added by `Requeue`) = the sum over the buffered batches; it can be negative. -/
 def shouldFlush (c : Cfg) (buf : List Batch) : Bool :=
   !buf.isEmpty &&
     ((decide (0 < c.maxBatches) && decide (c.maxBatches ≤ buf.length)) ||
-     (decide (0 < c.maxMessages) && decide (c.maxMessages ≤ (buf.map (·.n)).sum)))
+     (decide (0 < c.maxMessages) && decide ((c.maxMessages : Int) ≤ (buf.map (·.mc)).sum)))
 
 /-- Volatile state of one `PartitionLog`. -/
 structure Mem where
@@ -65,13 +79,47 @@ structure Mem where
   segments : List (Nat × Nat)     -- (baseOffset, lastOffset+1), in commit order
 deriving Repr, DecidableEq
 
-/-- `prepareFlush` (caller holds `l.mu`). `BuildSegment` cannot fail on non-empty batches with
-non-empty payloads, which is all `handleProduce` can append. -/
-def prepareFlush (m : Mem) : Mem × Option (List Batch) :=
-  if m.flushing then (m, none)
+structure Variant where
+  requeue : Bool        -- failed upload puts the drained batches back at the front of the buffer
+  atomicTarget : Bool   -- empty Flush reads nextOffset in the critical section of prepareFlush
+  monotone : Bool       -- UpdateOffsets never lowers next_offset
+  strictBuild : Bool    -- BuildSegment also rejects a batch whose header declares a negative record count
+  requeueBuild : Bool   -- prepareFlush's BuildSegment-error exit re-queues the drained batches
+deriving Repr, DecidableEq
+
+/-- the code as it is (with the three "fix:" commits): `BuildSegment` has its two input checks, the
+error exit of `prepareFlush` drops what was drained -/
+def fixed : Variant := ⟨true, true, true, false, false⟩
+def old : Variant := ⟨false, false, false, false, false⟩
+
+/-- `BuildSegment` returns no error: `len(batches) != 0`, no `len(batch.Bytes) == 0`
+(`bytes.Buffer.Write` and `binary.Write` into a `bytes.Buffer` do not fail); `strict` adds the
+check `batch.MessageCount < 0` of the hardening change. -/
+def buildOk (strict : Bool) (bs : List Batch) : Bool :=
+  !bs.isEmpty && bs.all (fun b => decide (0 < b.len)) && (!strict || bs.all (fun b => decide (0 ≤ b.mc)))
+
+/-- does this call of `BuildSegment` fail?  By its own rule, or — only in shapes whose error exit
+re-queues — because the fault oracle says so. -/
+def buildFails (v : Variant) (fault : Bool) (bs : List Batch) : Bool :=
+  !buildOk v.strictBuild bs || (v.requeueBuild && fault)
+
+/-- result of `prepareFlush`: `(nil, nil)`, `(artifact, nil)`, `(nil, err)` -/
+inductive Prep where
+  | none
+  | art (a : List Batch)
+  | err
+deriving Repr, DecidableEq
+
+/-- `prepareFlush` (caller holds `l.mu`): `Drain` first, THEN `BuildSegment`; when that fails the
+drained batches are in no field any more unless the error exit re-queues them. -/
+def prepareFlush (v : Variant) (fault : Bool) (m : Mem) : Mem × Prep :=
+  if m.flushing then (m, .none)
   else match m.buffer with
-    | [] => (m, none)
-    | b :: bs => ({ m with buffer := [], flushing := true, inflight := b :: bs }, some (b :: bs))
+    | [] => (m, .none)
+    | b :: bs =>
+      if buildFails v fault (b :: bs) then
+        ({ m with buffer := if v.requeueBuild then b :: bs else [] }, .err)
+      else ({ m with buffer := [], flushing := true, inflight := b :: bs }, .art (b :: bs))
 
 /-- Where a produce goroutine is.  `inA = true`: inside `AppendBatch`; `false`: inside `Flush`. -/
 inductive Pc where
@@ -86,15 +134,6 @@ inductive Pc where
   | failed (b : Batch)                         -- produce response: error code ≠ 0
 deriving Repr, DecidableEq
 
-structure Variant where
-  requeue : Bool        -- failed upload puts the drained batches back at the front of the buffer
-  atomicTarget : Bool   -- empty Flush reads nextOffset in the critical section of prepareFlush
-  monotone : Bool       -- UpdateOffsets never lowers next_offset
-deriving Repr, DecidableEq
-
-def fixed : Variant := ⟨true, true, true⟩
-def old : Variant := ⟨false, false, false⟩
-
 structure State where
   cfg : Cfg
   mem : Option Mem                       -- none: broker down (crashed, not yet re-opened)
@@ -105,10 +144,11 @@ structure State where
   pcs : Nat → Pc
   acked : List Batch                     -- ghost: every batch ever acknowledged (survives crashes)
   nextId : Nat                           -- ghost: fresh batch ids
+  fault : Bool                           -- fault oracle: `BuildSegment` fails while set (requeueBuild shapes only)
 
 def init (cfg : Cfg) : State :=
   { cfg := cfg, mem := none, segs := fun _ => none, idxs := fun _ => none, kb := 0, hw := 0,
-    pcs := fun _ => .idle, acked := [], nextId := 0 }
+    pcs := fun _ => .idle, acked := [], nextId := 0, fault := false }
 
 def setPc (s : State) (t : Nat) (pc : Pc) : State :=
   { s with pcs := fun t' => if t' = t then pc else s.pcs t' }
@@ -127,9 +167,10 @@ def emptyTarget (s : State) (m : Mem) (t : Nat) (b : Batch) : State :=
 /-- First critical section of `Flush` (also what a woken waiter re-executes). -/
 def flushEnter (v : Variant) (s : State) (m : Mem) (t : Nat) (b : Batch) : State :=
   if m.flushing then setPc s t (.waitF b)
-  else match prepareFlush m with
-    | (m', some art) => { setPc s t (.up false b art none none) with mem := some m' }
-    | (_, none) => if v.atomicTarget then emptyTarget s m t b else setPc s t (.emptyF b)
+  else match prepareFlush v s.fault m with
+    | (m', .art art) => { setPc s t (.up false b art none none) with mem := some m' }
+    | (_, .none) => if v.atomicTarget then emptyTarget s m t b else setPc s t (.emptyF b)
+    | (m', .err) => { setPc s t (.failed b) with mem := some m' }    -- `Flush` returns the build error
 
 /-- `UpdateOffsets(h - 1)` on the store. -/
 def storePut (v : Variant) (hw h : Nat) : Nat := if v.monotone then max hw h else h
@@ -156,7 +197,9 @@ def scan (segs idxs : Nat → Option (List Batch)) (hw : Nat) : Nat → Option (
         | none => if hw ≤ n then some acc else none
 
 inductive Ev where
-  | append (t n : Nat)        -- critical section of AppendBatch (n = lastOffsetDelta + 1 ≥ 1)
+  | append (t n : Nat) (mc : Int) (len : Nat)
+                              -- critical section of AppendBatch (n = lastOffsetDelta + 1 ≥ 1, declared
+                              -- record count mc, payload length len ≥ 8)
   | flush (t : Nat)           -- Flush: first critical section
   | wake (t : Nat)            -- a waiter re-checks `l.flushing`
   | readNext (t : Nat)        -- pre-fix only: second critical section of an empty Flush
@@ -166,20 +209,25 @@ inductive Ev where
   | pub (t : Nat) (ok : Bool) -- onFlush → store.UpdateOffsets returns (error is only logged)
   | crash
   | restore                   -- getPartitionLog: NextOffset, RestoreFromS3, offset sync
+  | buildFault (on : Bool)    -- environment: the fault oracle of `BuildSegment` is switched on / off
 deriving Repr, DecidableEq
 
+/-- a produce of a well-formed batch: record count = lastOffsetDelta + 1, 61 header bytes + records -/
+@[reducible] def Ev.wf (t n : Nat) : Ev := .append t n n (61 + 11 * n)
+
 def step (v : Variant) (s : State) : Ev → Option State
-  | .append t n =>
+  | .append t n mc len =>
     match s.mem, s.pcs t with
     | some m, .idle =>
-      if 1 ≤ n then
-        let b : Batch := { id := s.nextId, base := m.next, n := n }
+      if 1 ≤ n ∧ 8 ≤ len then
+        let b : Batch := { id := s.nextId, base := m.next, n := n, mc := mc, len := len }
         let m1 : Mem := { m with next := m.next + n, buffer := m.buffer ++ [b] }
         let s1 : State := { s with nextId := s.nextId + 1 }
         if shouldFlush s.cfg m1.buffer then
-          match prepareFlush m1 with
-          | (m2, some art) => some { setPc s1 t (.up true b art none none) with mem := some m2 }
-          | (m2, none) => some { setPc s1 t (.appended b) with mem := some m2 }
+          match prepareFlush v s.fault m1 with
+          | (m2, .art art) => some { setPc s1 t (.up true b art none none) with mem := some m2 }
+          | (m2, .none) => some { setPc s1 t (.appended b) with mem := some m2 }
+          | (m2, .err) => some { setPc s1 t (.failed b) with mem := some m2 }   -- AppendBatch returns (nil, err)
         else some { setPc s1 t (.appended b) with mem := some m1 }
       else none
     | _, _ => none
@@ -241,6 +289,7 @@ def step (v : Variant) (s : State) : Ev → Option State
                         hw := storePut v s.hw e }
         else
           some { s with mem := some { next := s.hw, buffer := [], flushing := false, inflight := [], segments := l } }
+  | .buildFault on => some { s with fault := on }
 
 def run (v : Variant) (s : State) : List Ev → Option State
   | [] => some s
